@@ -18,7 +18,7 @@ def extra(c, rng, tier, results):
     per = 60 if tier == "quick" else 900
     res = {}
     lines = corpus_programs("C14")
-    for prof, tag in ((STATIC_PROFILE, "st"), ("locks", "lk"), ("stdmix", "mx"), ("tls", "tl")):
+    for prof, tag in ((STATIC_PROFILE, "st"), ("locks", "lk"), ("stdmix", "mx"), ("tls", "tl"), ("async_dl", "ad"), ("async_abort", "ab"), ("chan", "ch")):
         for l in gen.batch(rng.next(), prof, per, f"c14{tag}_", ("random", "pct", "dfs")):
             if l.startswith("config ") and rng.chance(2, 3):
                 l = l.replace("steps=none", "steps=cont:%d" % (3 + rng.below(12)))
@@ -59,6 +59,19 @@ def extra(c, rng, tier, results):
         all_ex = executions(multi["impl"].get(n, []))
         if any(any(l == "P panic" for l in p["lines"]) and not (p["end"] or "").startswith("E fail") for p in all_ex[:-1]):
             leaky.add(n)
+    # the harness's own probe of the initial world (`L live=<n> label=<b>` at the start of an execution): a value owned by
+    # a task of an earlier execution is still alive (e.g. the closure of a task that never got to run was forgotten instead of
+    # dropped), or a label written while an earlier execution was torn down is still attached to the main task
+    for n in multi["names"]:
+        if n in leaky:
+            continue
+        for ex in executions(multi["impl"].get(n, [])):
+            probe = [l for l in ex["lines"] if l.startswith("L ")]
+            if probe and ex["idx"] != "0":
+                bad.append((f"execution {ex['idx']} does not start in the initial world: `{probe[0]}` (live = values owned by tasks of an earlier "
+                            f"execution that were never destroyed; label = a label written during the teardown of an earlier execution)",
+                            {"kind": "program", "program": multi["progs"][n]}, "C14:initial-world"))
+                break
     multi["diffs"] = [d for d in multi["diffs"] if d[0] not in leaky]
     rp["diffs"] = [d for d in rp["diffs"] if meta.get(d[0], (None, None))[1] not in leaky]
     return res, bad
